@@ -31,7 +31,7 @@
 (*   above_largest  packets above the largest acknowledged are examined too *)
 (*   no_rearm     a probe timeout does not arm the next one                *)
 (***************************************************************************)
-EXTENDS Naturals, Integers, FiniteSets
+EXTENDS Naturals, Integers, FiniteSets, LossOps
 
 CONSTANTS N,      \* packets
           T,      \* instants
@@ -49,7 +49,6 @@ Pn == 1 .. N
 Out(s) == {p \in Pn : s[p] = "out"}
 MaxOf(S) == CHOOSE x \in S : \A y \in S : y <= x
 MinOf(S) == CHOOSE x \in S : \A y \in S : x <= y
-Pow2(n) == IF n = 0 THEN 1 ELSE IF n = 1 THEN 2 ELSE IF n = 2 THEN 4 ELSE IF n = 3 THEN 8 ELSE 16
 
 Init == /\ now = 0 /\ nextPn = 1 /\ sentAt = [p \in Pn |-> -1] /\ st = [p \in Pn |-> "unsent"]
         /\ net = {} /\ rcvd = {} /\ acks = {} /\ largest = 0 /\ lossTime = -1 /\ lastAe = -1
@@ -58,7 +57,7 @@ Init == /\ now = 0 /\ nextPn = 1 /\ sentAt = [p \in Pn |-> -1] /\ st = [p \in Pn
 \* set_loss_detection_timer as a function of the state; -1: not armed
 TimerOf(s, lt, la, c) ==
   IF lt # -1 THEN lt
-  ELSE IF Out(s) # {} /\ la # -1 THEN la + P * Pow2(c)
+  ELSE IF Out(s) # {} /\ la # -1 THEN PtoAt(la, P, c)
   ELSE -1
 Timer == TimerOf(st, lossTime, lastAe, ptoc)
 
@@ -86,8 +85,8 @@ DropAck(a) == /\ a \in acks /\ acks' = acks \ {a} /\ newlyAcked' = FALSE
 \* detect_lost_packets: the fates and the loss time after examining what is below `lg`
 Examined(s, lg) == {p \in Out(s) : Bug = "above_largest" \/ p < lg}
 Overdue(s, lg) == {p \in Examined(s, lg) :
-                     \/ (IF Bug = "gt_threshold" THEN lg > p + K ELSE lg >= p + K)
-                     \/ now - sentAt[p] >= D}
+                     IF Bug = "gt_threshold" THEN lg > p + K \/ now - sentAt[p] >= D
+                     ELSE AtThreshold(lg, p, K, now - sentAt[p], D)}
 Detect(s, lg) ==
   LET lostNow == Overdue(s, lg)
       rest == Examined(s, lg) \ lostNow
@@ -135,7 +134,7 @@ TimerArmed == Out(st) # {} => Timer # -1
 CountReset == newlyAcked => ptoc = 0
 
 LostOnlyAtThreshold ==
-  [][\A p \in Pn : (st[p] = "out" /\ st'[p] = "lost") => (largest' >= p + K \/ now - sentAt[p] >= D)]_vars
+  [][\A p \in Pn : (st[p] = "out" /\ st'[p] = "lost") => AtThreshold(largest', p, K, now - sentAt[p], D)]_vars
 AckedStaysAcked ==
   [][\A p \in Pn : /\ (st[p] = "acked" => st'[p] = "acked")
                    /\ (st[p] = "lost" => st'[p] = "lost")
